@@ -164,3 +164,4 @@ CLAIMS['C09']['text'] += _SCAN % 'P32E2 round/floor/ceil/trunc/fract (all 2^32 p
 CLAIMS['C04']['text'] += (' THOROUGH TIER: C12.q8_to_posit_all (to_posit on ALL 2^32 Q8E0 states, 368 native_decide shards) and C12.q8_history_rounds: C04 for Q8E0 at full strength '
     '(any finite history with in-range partial sums: accumulator exact AND to_posit = the exact sum rounded once), no further hypothesis.')
 CLAIMS['C12']['text'] += ' THOROUGH TIER: q8_to_posit_all - to_posit of EVERY one of the 2^32 Q8E0 states is the posit rounding of its exact value (NaR for the NaR image).'
+CLAIMS['C12']['text'] += ' q8_into_two_all / q8_into_three_all: the residual split for every Q8E0 state with |q| <= 2146000000 (99.93 % of all states).'
